@@ -465,7 +465,7 @@ def apply_rws(sf, ed, spec, lo_rw, hi_rw, arms=()):
         which = rwt[4] if len(rwt) > 4 else None     # `rw TAG k/N`: only the k-th of exactly N matches
         texts = plain_texts(orig)
         hits = find_token_seq(sf, lo_rw, hi_rw, texts)
-        if len(hits) != count:
+        if count is not None and len(hits) != count:     # count `*`: every occurrence, however many
             raise ExtractError('%s: rewrite %s `%s` matches %d sites, expected %d (shape change)'
                                % (spec.path, tag, orig, len(hits), count))
         if which is not None:
@@ -706,7 +706,7 @@ def emit_open(path, log):
 
 
 DIRECTIVE = re.compile(r'^\s*//@\s?(.*)$')
-RW_RE = re.compile(r'^rw\s+(\w+)\s+(?:(\d+)/)?(\d+)\s+<<(.*?)>>\s*=>\s*<<(.*?)>>\s*$')
+RW_RE = re.compile(r'^rw\s+(\w+)\s+(?:(\d+)/)?(\d+|\*)\s+<<(.*?)>>\s*=>\s*<<(.*?)>>\s*$')
 
 
 def parse_opts(words):
@@ -835,12 +835,12 @@ def expand_fragment(frag_name, text, out_lines, regions, log, vacuity=False):
                 mr = RW_RE.match(md2.group(1).strip())
                 if not mr:
                     break
-                rws.append((mr.group(1), int(mr.group(3)), mr.group(4), mr.group(5)))
+                rws.append((mr.group(1), (None if mr.group(3) == '*' else int(mr.group(3))), mr.group(4), mr.group(5)))
                 i += 1
             for tag, count, orig, new in rws:
                 texts = plain_texts(orig)
                 hits = find_token_seq(sf, it.hdr, it.body_open, texts)
-                if len(hits) != count:
+                if count is not None and len(hits) != count:
                     raise ExtractError('%s: header rewrite %s `%s` matches %d sites, expected %d'
                                        % (path, tag, orig, len(hits), count))
                 for h in hits:
@@ -923,7 +923,7 @@ def expand_fragment(frag_name, text, out_lines, regions, log, vacuity=False):
                         mr = RW_RE.match(d2)
                         if not mr:
                             raise ExtractError('%s: bad rw directive: %s' % (frag_name, d2))
-                        spec.rws.append((mr.group(1), int(mr.group(3)), mr.group(4), mr.group(5), int(mr.group(2)) if mr.group(2) else None))
+                        spec.rws.append((mr.group(1), (None if mr.group(3) == '*' else int(mr.group(3))), mr.group(4), mr.group(5), int(mr.group(2)) if mr.group(2) else None))
                     else:
                         raise ExtractError('%s: unknown item directive: %s' % (frag_name, d2))
                 else:
